@@ -23,11 +23,12 @@ CLASSES = {
     "CM": "sq* op nx", "SQ": "cb* tk an al* mg", "TK": "", "AN": "nt*", "NT": "", "IP": "", "TC": "nx ip",
     "CO": "b tg", "RB": "hs cs*", "BX": "", "LH": "sub*", "HC": "en*", "CH": "ce* ea eb",
 }
+# typed targets; collision fields also draw from other collision classes so that reference cycles are frequent
 PLAUSIBLE = {"e": ["XD", "TK"], "c": ["CM", "TC"], "p": ["AP", "LS"], "k": ["CO"], "ch": ["ND", "ON", "TS", "BT", "ND", "TS"], "ef": ["XD"],
              "d": ["TD"], "s": ["SK", "BK"], "sh": ["LS"], "a": ["AP"], "sd": ["SD"], "sp": ["SP"], "tg": ["ND"], "t": ["TX"],
              "sq": ["SQ"], "op": ["XD"], "nx": ["TC", "CM"], "cb": ["IP", "TC"], "tk": ["TK"], "an": ["AN"], "al": ["AN"], "mg": ["CM"],
-             "nt": ["NT"], "ip": ["IP"], "b": ["RB"], "hs": ["BX", "LH"], "cs": ["HC", "CH"], "sub": ["BX", "LH"], "en": ["RB"],
-             "ce": ["RB"], "ea": ["RB"], "eb": ["RB"]}
+             "nt": ["NT"], "ip": ["IP"], "b": ["RB", "RB", "LH"], "hs": ["BX", "LH", "RB"], "cs": ["HC", "CH", "RB"], "sub": ["BX", "LH", "LH", "RB"], "en": ["RB", "RB", "HC", "CH"],
+             "ce": ["RB", "CH"], "ea": ["RB", "HC"], "eb": ["RB", "CH"]}
 WEIGHTS = ["ND"] * 6 + ["ON"] + ["TS"] * 3 + ["BT"] * 3 + ["SK", "BK", "SD", "SP", "TD"] + ["LS"] * 2 + ["TX", "AP"] + ["XD"] * 3 + \
           ["CM", "SQ", "SQ", "TK", "AN", "NT", "IP", "TC"] + ["CO"] * 3 + ["RB"] * 3 + ["BX"] * 2 + ["LH", "HC", "HC", "CH"]
 
@@ -397,12 +398,12 @@ def run(tier, seed, replay=None):
         "spec_failures_on_impl": len(fails),
         "known_findings_hit": {k: len(v) for k, v in rep.known_hits.items()},
         "unproved": ["sort_idem (sorting a sorted model changes nothing): needs a simulation of the whole traversal under renaming; checked on every sort2 case of the implementation and on every enumerated small graph of the model only",
-                     "sort_total_acyclic (termination when the bhk child relation is acyclic): every theorem is conditional on the run returning Ok; inputs on which the model runs out of fuel (SortCollision cycles, C15) are not sent to the implementation"],
+                     "termination: every theorem is conditional on the run returning Ok (fuel = call depth); since SortCollision marks its parent before descending, reference cycles no longer recurse forever and no generated graph runs out of fuel, but termination itself is not proved"],
         "trusted_base": vlib.BASE_TRUSTED + ["modelled, not verified: the C++ class lattice as one independent bit per dynamic_cast (hypothesis node_shape_excl says no object is both NiNode and NiShape; checked on every dump), std::set<uint32_t> as a duplicate-free list, std::vector / NiBlockRefArray as lists",
                                              "tested, not proved: every structured field the sorter reads is one of the slots GetChildRefs / GetPtrs enumerate (so SetBlockOrder / DeleteBlock rewrite it): compared field by field on every case",
                                              "field values: written bytes of each block before/after with reference and string-index positions blanked (a second instance of the model; blocks of nifly's Put that rewrite empty array entries are compared after that rewrite)"],
         "exhaustive": False,
     })
-    return rep.finish(cov, ["references are empty or in range (refs_in_range), no object is both a node and a shape (node_shape_excl), fewer than 2^32-1 blocks, the traversal terminates (result Ok: no cycle in SortCollision's child-before-parent recursion)",
+    return rep.finish(cov, ["references are empty or in range (refs_in_range), no object is both a node and a shape (node_shape_excl), fewer than 2^32-1 blocks, the traversal terminates (result Ok; cyclic collision graphs included in the generated cases)",
                             "SetShapeOrder: no further hypothesis (any root position, any name list) after the two repairs C04-shapeorder-root-nonzero / C04-shapeorder-bad-names; std::is_permutation is modelled by its specification (true iff a rearrangement)",
                             "Optimize's bounding-sphere update and FinalizeData run before the first dump (outside the property)"])
